@@ -166,12 +166,13 @@ def r3_reuse(chk, f):
     for c in walk_no_nested(f.node):
         if not isinstance(c, ast.Continue):
             continue
-        # enclosing Ifs up to the loop
+        # what is known to hold where the item is skipped (enclosing tests, guard clauses), with boolean flags replaced by
+        # the one non-constant expression they are set from in the same iteration (`reusable = (...) and out.exitcode == 0`)
+        from ..canon import Env, conjuncts, path_conditions
+
+        env3 = Env(f.node)
         guards = [g for g in walk_no_nested(f.node) if isinstance(g, ast.If) and any(x is c for b in g.body for x in ast.walk(b))]
         guard = None
-        for g in guards:
-            if "exitcode" in norm(g.test) or "input_hash" in norm(g.test):
-                guard = g
         # which JobInput variable is current here?
         loops = [l for l in walk_no_nested(f.node) if isinstance(l, ast.For) and any(x is c for x in ast.walk(l))]
         if not loops:
@@ -189,12 +190,36 @@ def r3_reuse(chk, f):
             continue
         n += 1
         key = f"{f.key}:reuse-guard:{cur}"
-        if guard is None:
+        # the scope of this iteration: the innermost loop, or - in the single-input branch - the isinstance arm
+        scope = inner
+        if not (isinstance(inner.target, ast.Tuple) and "enumerate" in norm(inner.iter)):
+            for g in walk_no_nested(f.node):
+                if isinstance(g, ast.If) and isinstance(g.test, ast.Call) and call_name(g.test) == "isinstance" and norm(g.test.args[1]) == "JobInput" and any(x is c for b in g.body for x in ast.walk(b)):
+                    scope = ast.Module(body=g.body, type_ignores=[])
+        asg_scope = assignments(scope)
+
+        def unflag(e, depth=0):
+            """conjuncts of e with flag names replaced by what they are computed from inside this iteration"""
+            out = []
+            for cj in conjuncts(e):
+                if isinstance(cj, ast.Name) and depth < 4:
+                    vals = [v for v in asg_scope.get(cj.id, []) if isinstance(v, ast.AST) and not (isinstance(v, ast.Constant) and v.value in (False, None))]
+                    if len(vals) == 1:
+                        out.extend(unflag(vals[0], depth + 1))
+                        continue
+                out.append(cj)
+            return out
+
+        conj = []
+        for pc in path_conditions(f.node, c):
+            conj.extend(unflag(pc))
+        # outputs loaded in this iteration
+        outs = {nm for nm, vals in asg_scope.items() for v in vals if isinstance(v, ast.Call) and norm(v.func) == "JobOutput.load"}
+        guard = next((g for g in guards if any(o in names_in(g.test) for o in outs)), guards[-1] if guards else None)
+        if not any("exitcode" in norm(x) or "input_hash" in norm(x) for x in conj):
             chk.fail("C18.R3", key, f.where(c), "a cached output is reused (the item is skipped) without any test of its exit code and input hash")
             continue
-        t = guard.test
-        conj = t.values if isinstance(t, ast.BoolOp) and isinstance(t.op, ast.And) else [t]
-        has_exit = any(norm(x) in ("_out.exitcode == 0", "out.exitcode == 0", "not _out.exitcode") for x in conj)
+        has_exit = any(norm(x) in [f"{o}.exitcode == 0" for o in outs] + [f"not {o}.exitcode" for o in outs] + [f"0 == {o}.exitcode" for o in outs] for x in conj)
         hash_ok = False
         for x in conj:
             alts = x.values if isinstance(x, ast.BoolOp) and isinstance(x.op, ast.Or) else [x]
